@@ -425,9 +425,9 @@ func genC09(c *vlib.Ctx, idx int64, singles, total, late, sib, stale, two int) H
 	w := pickWeight(r)
 	hc.FailPoint = envlab.Expr(mname, w)
 	for i, k := range kinds {
-		h := envlab.HookSpec{Name: fmt.Sprintf("f%d", i), Kind: kindOf(k), Trigger: hc.FailPoint, Behaviour: k, OnlyInv: earlier + 1}
+		h := envlab.HookSpec{Name: fmt.Sprintf("f%d", i), Kind: kindOf(k), Trigger: spell(r, mname, w), Behaviour: k, OnlyInv: earlier + 1}
 		if r.Intn(2) == 0 {
-			h.Await = h.Trigger
+			h.Await = spell(r, mname, w) // same point, maybe spelled differently
 		}
 		switch k {
 		case envlab.CallTimeout:
